@@ -46,7 +46,7 @@ static int cmd_run(int argc, char **argv) {
         if ((done & 15) == 0 && now_s() - t0 > budget) break;   // the only real clock read: decides how many runs, never what a run does
         if (curfd >= 0) { char b[32]; int n = snprintf(b, sizeof b, "%020llu\n", (unsigned long long) idx); if (pwrite(curfd, b, (size_t) n, 0) < 0) {} }
         Plan p;
-        uint64_t rs = run_seed(seed, prop, idx);
+        uint64_t rs = prop == "C08" ? (mix64(seed, 8) & ~0xffffULL) + idx : run_seed(seed, prop, idx);
         if (!generate_plan(prop, rs, p)) { fprintf(stderr, "cannot generate plan\n"); return 2; }
         if (!excluded.empty()) { std::string trg = plan_trigger(p); if (!trg.empty() && excluded.count(trg)) { agg.inc("excluded." + trg); agg.runs++; done++; continue; } }
         double t_run = getenv("VERIF_SLOW") ? now_s() : 0;
@@ -86,7 +86,7 @@ static int cmd_emit(int argc, char **argv) {
     uint64_t idx = strtoull(arg_of(argc, argv, "--index", "0").c_str(), 0, 10);
     std::string out = arg_of(argc, argv, "--out", "");
     Plan p;
-    if (!generate_plan(prop, run_seed(seed, prop, idx), p)) return 2;
+    if (!generate_plan(prop, prop == "C08" ? (mix64(seed, 8) & ~0xffffULL) + idx : run_seed(seed, prop, idx), p)) return 2;
     if (out.empty()) fputs(p.serialize().c_str(), stdout); else write_file(out, p.serialize());
     return 0;
 }
@@ -223,7 +223,7 @@ static int cmd_shrink(int argc, char **argv) {
         for (size_t i = p.cbs.size(); i-- > 0 && g_tests < max_tests;) { Plan q = p; q.cbs.erase(q.cbs.begin() + (long) i); if (still_fails(q)) { p = q; progress = true; } }
         {
             std::vector<std::string> keys; for (auto &kv : p.cfg.kv) keys.push_back(kv.first);
-            for (auto &k : keys) { if (g_tests >= max_tests) break; if (k == "wellformed" || k == "skeleton" || k == "scn" || k.compare(0, 4, "c16_") == 0 || k.compare(0, 4, "c11_") == 0 || k.compare(0, 4, "c07_") == 0 || k.compare(0, 4, "c14_") == 0 || k == "res_decomp" || k == "clock_step") continue; Plan q = p; q.cfg.kv.erase(k); if (still_fails(q)) { p = q; progress = true; } }
+            for (auto &k : keys) { if (g_tests >= max_tests) break; if (k == "wellformed" || k == "skeleton" || k == "scn" || k.compare(0, 4, "c16_") == 0 || k.compare(0, 4, "c11_") == 0 || k.compare(0, 4, "c07_") == 0 || k.compare(0, 4, "c14_") == 0 || k.compare(0, 4, "c08_") == 0 || k == "res_decomp" || k == "clock_step") continue; Plan q = p; q.cfg.kv.erase(k); if (still_fails(q)) { p = q; progress = true; } }
         }
         // 5. drop unused tail bytes of the streams, then try shortening from the end
         for (size_t c = 0; !domain && c < p.conns.size(); c++) for (int d = 0; d < 2; d++) {
